@@ -181,6 +181,10 @@ def check(case):
         out.append(Fail('untranslated-operator', None))
     if bd.observe(fm) != model:
         out.append(Fail('export-mutates-model', None))
+    if not out and sh.size(model) <= 2:
+        bad = cm.bare_name_write(ClaferWriter, fm, 'txt', text)
+        if bad is not None:
+            out.append(bad)
     return out
 
 
